@@ -137,7 +137,18 @@ pub fn apply(base: &Value, path: &jw::Path, m: &Mutn) -> Option<Value> {
                 }
                 Mutn::Flip(k) => u ^ (1u64 << (k % if is_u8 { 8 } else { 64 })),
                 Mutn::PMinus1 => max,
-                Mutn::HighBit(_) => return None,
+                Mutn::HighBit(k) => {
+                    // numbers: add a power of two above the low 32 bits (160 -> 2^32, 248 -> 2^48, 250 -> 2^62)
+                    if is_u8 {
+                        return None;
+                    }
+                    let bit = match k {
+                        160 | 32 => 32,
+                        248 | 48 => 48,
+                        _ => 62,
+                    };
+                    u.checked_add(1u64 << bit)?
+                }
                 Mutn::NextValue => return None,
                 Mutn::Delete => unreachable!(),
             };
